@@ -801,6 +801,37 @@ class SymVM:
             p = conc(R[a[2]], 'logd pointer')
             n = conc(R[a[3]], 'logd length')
             st.receipts.append(('logd', R[a[0]], R[a[1]], self.read_bytes(st, p, n)))
+        elif name == 'SMO':
+            # fuel-vm 0.66.4 interpreter/blockchain.rs message_output, external (script) context
+            n = conc(R[a[2]], 'smo data length')
+            if n > 1024 * 1024:
+                raise Panic('MessageDataTooLong')
+            p = conc(R[a[1]], 'smo data pointer')
+            data = self.read_bytes(st, p, n)
+            rp = conc(R[a[0]], 'smo recipient pointer')
+            recipient = self.read_bytes(st, rp, 32)
+            self.read_bytes(st, conc(R[R_FP], 'fp'), 32)  # sender
+            # free balance of the base asset: the VM mirrors RuntimeBalances in memory at
+            # [64 + 40*i): asset id (32 bytes), balance (8 bytes); base asset id at [32, 64)
+            base = [st.mem.get(32 + i, 0) for i in range(32)]
+            ent = None
+            for i in range(255):
+                if [st.mem.get(64 + 40 * i + j, 0) for j in range(32)] == base:
+                    ent = 64 + 40 * i + 32
+                    break
+            if ent is None:
+                raise Panic('NotEnoughBalance')
+            bal = self.load(st, ent, 8)
+            amount = R[a[3]]
+            if isc(amount) and isc(bal):
+                enough = amount <= bal
+            else:
+                enough = self.decide(st, z3.ULE(bv(amount), bv(bal)), work)
+            if not enough:
+                raise Panic('NotEnoughBalance')
+            self.store(st, ent, 8, simp(bv(bal) - bv(amount)) if not (isc(bal) and isc(amount)) else bal - amount,
+                       owner_check=False)
+            st.receipts.append(('smo', 0, amount, list(recipient) + list(data)))
         elif name in ('WQOP', 'WDOP'):
             self.op_wide_math(st, work, name, a)
         elif name in ('WQCM', 'WDCM'):
@@ -1163,7 +1194,8 @@ def data_term(data):
 
 def receipts_differ(ra, rb):
     """z3 Bool (or python bool) that is true iff two receipt lists differ in what is observable:
-    for LOG: the four register values; for LOGD: the log id (rb) and the data bytes."""
+    for LOG: the four register values; for LOGD: the log id (rb) and the data bytes; for a message
+    output ('smo', 0, amount, recipient + data): the amount, the recipient and the data."""
     if len(ra) != len(rb):
         return True
     diffs = []
